@@ -406,4 +406,30 @@ theorem parLoop_disjoint (plen : Nat → Nat) (base items threads : Nat) (hi : 1
   · rw [hxc, hyc, mi.2.1, mj.2.1]; omega
 
 
+theorem splitLoop_aligned (len : Nat) (hl : len % 64 = 0) : ∀ (n : Nat) (w : Win), w.start % 64 = 0 → n * len ≤ w.len →
+    splitLoop n w len = .ok ((List.range n).map (fun k => (⟨w.start + k * len, len⟩ : Win)), ⟨w.start + n * len, w.len - n * len⟩) := by
+  intro n
+  induction n with
+  | zero => intro w _ _; simp [splitLoop]
+  | succ k ih =>
+    intro w hw hn
+    have hoff : w.alignOffset = 0 := by simp [Win.alignOffset, hw]
+    rw [Nat.succ_mul] at hn
+    have hlt : ¬ (w.len < len) := by omega
+    unfold splitLoop
+    simp only [takeAligned, hoff, hlt, if_false, Nat.add_zero, Nat.sub_zero]
+    have := ih ⟨w.start + len, w.len - len⟩ (by simp; omega) (by simp; omega)
+    rw [this]
+    simp only [Outcome.ok.injEq, Prod.mk.injEq]
+    constructor
+    · rw [List.range_succ_eq_map]
+      simp only [List.map_cons, List.map_map, Nat.zero_mul, Nat.add_zero, List.cons.injEq, true_and]
+      apply List.map_congr_left
+      intro a _
+      simp only [Function.comp, Nat.succ_mul, Win.mk.injEq, and_true]
+      omega
+    · simp only [Nat.succ_mul, Win.mk.injEq]
+      omega
+
+
 end Threads
